@@ -86,7 +86,7 @@ impl Layout {
                 (NodeKind::Cli { args }, vec![])
             }
         };
-        NodeSpec { kind, cwd: String::new(), env, hashseed: 0, faults: vec![], leak: 0, canary: false, clock: None, pid: None }
+        NodeSpec { kind, cwd: String::new(), env, hashseed: 0, faults: vec![], leak: 0, canary: false, clock: None, pid: None, reuse_config: false }
     }
 }
 
@@ -122,7 +122,7 @@ pub fn history(pool: &Pool, seed: u64, n: u64) -> Scenario {
     }
     let len = rng.range(4, 25);
     let mut edit_no = 0u64;
-    let mut build = |ops: &mut Vec<Op>, gs: &[G], rng: &mut Rng, force: bool| {
+    let build = |ops: &mut Vec<Op>, gs: &[G], rng: &mut Rng, force: bool, edit_counter: &mut u64, pending_edits: &mut Vec<(usize, Vec<u8>)>| {
         let mut node = layout.node(gs, force);
         if let NodeKind::Api { calls } = &node.kind {
             if calls.is_empty() {
@@ -131,6 +131,35 @@ pub fn history(pool: &Pool, seed: u64, n: u64) -> Scenario {
         }
         if layout.kind == 3 && !gs.iter().any(|g| g.present) {
             return; // the CLI refuses an empty input list; nothing to check
+        }
+        // a long-lived process: it builds, the grammar changes under it, it builds again -- through
+        // one reused `Configuration` value (state carried from one build to the next in memory)
+        if layout.kind != 3 && rng.chance(1, 5) {
+            let rounds = rng.range(1, 2);
+            let mut all_calls: Vec<CallSpec> = match &node.kind {
+                NodeKind::Api { calls } => calls.clone(),
+                _ => vec![],
+            };
+            for _ in 0..rounds {
+                let present: Vec<usize> = gs.iter().enumerate().filter(|(_, g)| g.present).map(|(i, _)| i).collect();
+                if present.is_empty() {
+                    break;
+                }
+                let gi = *rng.pick(&present);
+                *edit_counter += 1;
+                let nt = match rng.below(10) {
+                    0..=5 => apply_edit(&gs[gi].last_valid, *rng.pick(VALID_EDITS), *edit_counter),
+                    6..=7 => apply_edit(&gs[gi].last_valid, *rng.pick(ERROR_EDITS), *edit_counter),
+                    _ => gs[gi].last_valid.clone(),
+                };
+                pending_edits.push((gi, nt.clone()));
+                all_calls.push(CallSpec { entry: "write_file".into(), path: Some(gs[gi].path.clone()), write_hex: Some(simcore::hex(&nt)), whitespace: true, ..Default::default() });
+                if let NodeKind::Api { calls } = &layout.node(gs, false).kind {
+                    all_calls.extend(calls.iter().cloned());
+                }
+            }
+            node.kind = NodeKind::Api { calls: all_calls };
+            node.reuse_config = rng.chance(3, 4);
         }
         if transparent {
             for _ in 0..rng.below(4) {
@@ -148,8 +177,20 @@ pub fn history(pool: &Pool, seed: u64, n: u64) -> Scenario {
     for _ in 0..len {
         let gi = rng.below(gs.len() as u64) as usize;
         match rng.below(100) {
-            0..=24 => build(&mut ops, &gs, &mut rng, false),
-            25..=29 => build(&mut ops, &gs, &mut rng, true),
+            0..=29 => {
+                let force = rng.chance(1, 6);
+                let mut pending: Vec<(usize, Vec<u8>)> = Vec::new();
+                build(&mut ops, &gs, &mut rng, force, &mut edit_no, &mut pending);
+                // the model's view of the grammars follows the edits the node made itself
+                for (gi, nt) in pending {
+                    let g = &mut gs[gi];
+                    g.history.push(g.text.clone());
+                    g.text = nt.clone();
+                    if std::str::from_utf8(&nt).is_ok() && !nt.is_empty() && !nt.ends_with(b"not a grammar\n") && !String::from_utf8_lossy(&nt).contains("MissingSymbol") {
+                        g.last_valid = nt;
+                    }
+                }
+            }
             30..=44 => {
                 // valid edit
                 let g = &mut gs[gi];
